@@ -26,7 +26,7 @@ ASSUMPTIONS = ['"secret" is matched as a lower-case substring of the resource na
                'visible-control expectations are dropped for a host that contains a resource whose repr raises (the whole section is then reported as failed inline)']
 REQUIRED_REACH = ['secret-resources-rendered', 'redaction-marker-seen:html', 'redaction-marker-seen:json', 'visible-control-seen:html',
                   'visible-control-seen:json', 'json-view-parsed', 'cookie-key-hosts', 'depth:2', 'name:prefix', 'name:infix', 'name:suffix',
-                  'value:bytes', 'value:number', 'value:nested', 'value:object-repr', 'value:bad-repr', 'inline-section-failure-seen']
+                  'value:bytes', 'value:number', 'value:nested', 'value:object-repr', 'value:bad-repr', 'inline-section-failure-seen', 'host-context-processor']
 NSHARDS = 16
 SECRET_NAMES = {'prefix': ['secret_key', 'secret-token', 'secretX'], 'infix': ['db_secret_url', 'mysecrets', 'x_secret_y'],
                 'suffix': ['api_secret', 'cookiesecret', 'the.secret'], 'whole': ['secret']}
@@ -89,14 +89,17 @@ def gen_host(rng, n):
     mws = [m for i, m in enumerate(mws) if i == mws.index(m)]      # one instance per kind (two would offer the same name)
     return {'resources': res, 'routes': routes, 'mws': mws, 'cookie_key': sentinel('str') + 'KEY', 'depth': rng.pick([1, 1, 2]),
             'prefix': rng.pick(['/_meta/', '/_meta', '/admin/meta/', '/m']), 'factory': rng.chance(0.5),
-            'uses': [r['name'] for r in res if rng.chance(0.3) and re.match(r'^[A-Za-z_]\w*$', r['name'])]}
+            'uses': [r['name'] for r in res if rng.chance(0.3) and re.match(r'^[A-Za-z_]\w*$', r['name'])],
+            # a host ContextProcessor that copies some resources into every render context
+            'ctxproc': ([r['name'] for r in res if rng.chance(0.5) and re.match(r'^[A-Za-z_]\w*$', r['name'])]
+                        if rng.chance(0.2) else [])}
 
 
 def build_host(host):
     import os
     from clastic import Application, Route, Response, Middleware, MetaApplication, StaticApplication, StaticFileRoute, RerouteWSGI
     from clastic.decorators import clastic_decorator
-    from clastic.middleware import GzipMiddleware, GetParamMiddleware
+    from clastic.middleware import GzipMiddleware, GetParamMiddleware, ContextProcessor
     from clastic.middleware.stats import StatsMiddleware
     from clastic.middleware.cookie import SignedCookieMiddleware
     resources = dict((r['name'], make_value(r['kind'], r['sentinel'])) for r in host['resources'])
@@ -181,6 +184,8 @@ def build_host(host):
         mws.append({'cookie': lambda: SignedCookieMiddleware(secret_key=host['cookie_key'].encode('ascii')),
                     'stats': StatsMiddleware, 'gzip': GzipMiddleware, 'hostile-repr': Hostile,
                     'getparam': lambda: GetParamMiddleware(['page'])}[m]())
+    if host.get('ctxproc'):
+        mws.append(ContextProcessor(required=list(host['ctxproc'])))
     meta = MetaApplication()
     if host['depth'] == 1:
         routes.append((host['prefix'], meta))
@@ -195,6 +200,27 @@ def build_host(host):
             return lambda context: Response('rendered %s' % arg)
     app = Application(routes, resources=resources, middlewares=mws, render_factory=factory)
     return app, base
+
+
+KNOWN_CTXPROC = 'host-context-processor-values-in-meta-json-view'
+
+
+def caused_by_host_context_processor(host, secrets):
+    """Known mechanism (known_findings.json): a ContextProcessor of the *host* copies resources into the render
+    context of every route, the meta JSON view serialises its whole context - the value shows up (or, if it is not
+    JSON-serialisable, the view fails).  Recognised by its cause: the very same host without that ContextProcessor
+    renders the JSON view with status 200 and without any secret."""
+    if not host.get('ctxproc'):
+        return False
+    try:
+        app2, base2 = build_host(dict(host, ctxproc=[]))
+        ex2 = probe.request(app2, 'GET', base2 + '/json/')
+        if ex2.exc is not None or ex2.status != 200:
+            return False
+        body2 = ex2.body.decode('utf8', 'replace')
+        return not any(f in body2 for r in secrets if r['kind'] != 'bad-repr' for f in forms_of(r['sentinel']))
+    except Exception:
+        return False
 
 
 def forms_of(sentinel):
@@ -221,6 +247,8 @@ def judge(sh, host, record=True):
         sh.hit('depth:2')
     if has_cookie:
         sh.hit('cookie-key-hosts')
+    if host.get('ctxproc'):
+        sh.hit('host-context-processor')
     for r in host['resources']:
         if r['secret']:
             sh.hit('name:' + r['pos'])
@@ -236,7 +264,10 @@ def judge(sh, host, record=True):
             bad('exception-escaped', '%s escaped' % probe.safe_repr(ex.exc)[:300])
             continue
         if ex.status != 200:
-            bad('status-%s' % ex.status, 'status %s %r' % (ex.status, ex.body[:300]))
+            if view == 'json' and caused_by_host_context_processor(host, secrets):
+                bad(KNOWN_CTXPROC, 'status %s %r' % (ex.status, ex.body[:200]))
+            else:
+                bad('status-%s' % ex.status, 'status %s %r' % (ex.status, ex.body[:300]))
             continue
         body = ex.body.decode('utf8', 'replace')
         leaked = False
@@ -244,7 +275,10 @@ def judge(sh, host, record=True):
             if r['kind'] == 'bad-repr':
                 continue
             if any(f in body for f in forms_of(r['sentinel'])):
-                bad('secret-resource-leaked', 'the value of %r (%s) appears in the body' % (r['name'], r['kind']))
+                key = 'secret-resource-leaked'
+                if view == 'json' and caused_by_host_context_processor(host, secrets):
+                    key = KNOWN_CTXPROC
+                bad(key, 'the value of %r (%s) appears in the body' % (r['name'], r['kind']))
                 leaked = True
                 break
         if leaked:
